@@ -2,9 +2,11 @@ mod bdd;
 mod core;
 mod dft;
 mod hal;
+mod ks;
 mod tmpbytes;
 mod util;
 mod wire;
+mod xp;
 
 use serde_json::Value;
 use std::io::{BufRead, BufReader, BufWriter, Write};
@@ -127,6 +129,40 @@ fn main() {
             }
             out.flush().unwrap();
             println!("core: {} programs {} events", progs.len(), n);
+        }
+        // ks <descriptors.ndjson> <events.ndjson>
+        "ks" => {
+            let cases = read_ndjson(&args[2]);
+            let mut out = BufWriter::new(std::fs::File::create(&args[3]).unwrap());
+            let mut mods = ks::KMods::new();
+            let seed = env_seed();
+            for (idx, c0) in cases.iter().enumerate() {
+                let mut c = c0.clone();
+                if c.get("id").is_none() {
+                    c["id"] = serde_json::json!(idx + 1);
+                }
+                let ev = ks::run_ks(&mut mods, &c, seed);
+                writeln!(out, "{}", serde_json::to_string(&ev).unwrap()).unwrap();
+            }
+            out.flush().unwrap();
+            println!("ks: {} events", cases.len());
+        }
+        // xp <descriptors.ndjson> <events.ndjson>
+        "xp" => {
+            let cases = read_ndjson(&args[2]);
+            let mut out = BufWriter::new(std::fs::File::create(&args[3]).unwrap());
+            let mut mods = xp::XMods::new();
+            let seed = env_seed();
+            for (idx, c0) in cases.iter().enumerate() {
+                let mut c = c0.clone();
+                if c.get("id").is_none() {
+                    c["id"] = serde_json::json!(idx + 1);
+                }
+                let ev = xp::run_xp(&mut mods, &c, seed);
+                writeln!(out, "{}", serde_json::to_string(&ev).unwrap()).unwrap();
+            }
+            out.flush().unwrap();
+            println!("xp: {} events", cases.len());
         }
         // bdd-tables <out.ndjson>
         "bdd-tables" => {
